@@ -35,6 +35,27 @@ def compile_pattern(src: str) -> ast.AST:
 
 _MIRROR = {ast.Eq: ast.Eq, ast.NotEq: ast.NotEq, ast.Lt: ast.Gt, ast.Gt: ast.Lt, ast.LtE: ast.GtE, ast.GtE: ast.LtE}
 _in_mirror = [False]
+_env: List[Dict[str, ast.AST]] = [{}]      # names with exactly one plain assignment in the function being searched
+
+
+def single_defs(fn: ast.AST) -> Dict[str, ast.AST]:
+    """name -> value for locals of `fn` that are bound exactly once, by a plain `name = value` (not parameters, loop
+    targets, augmented or unpacking assignments): reading such a name is reading that value"""
+    stores: Dict[str, int] = {}
+    vals: Dict[str, ast.AST] = {}
+    for x in walk_no_nested(fn):
+        if isinstance(x, ast.Name) and isinstance(x.ctx, (ast.Store, ast.Del)):
+            stores[x.id] = stores.get(x.id, 0) + 1
+        elif isinstance(x, ast.Assign) and len(x.targets) == 1 and isinstance(x.targets[0], ast.Name):
+            vals[x.targets[0].id] = x.value
+        elif isinstance(x, ast.AugAssign) and isinstance(x.target, ast.Name):
+            stores[x.target.id] = stores.get(x.target.id, 0) + 1
+    params = set()
+    if isinstance(fn, (ast.FunctionDef, ast.AsyncFunctionDef)):
+        a = fn.args
+        params = {y.arg for y in a.posonlyargs + a.args + a.kwonlyargs}
+    return {k: v for k, v in vals.items() if stores.get(k) == 1 and k not in params
+            and not any(isinstance(y, ast.Name) and y.id == k for y in ast.walk(v))}
 
 
 def _is_any_body(body) -> bool:
@@ -75,6 +96,13 @@ def unify(p, n, b: Dict[str, object]) -> bool:
         return False
     if isinstance(p, ast.AST):
         if type(p) is not type(n):
+            # a local bound once by `t = E` is transparent: a structural pattern matches E where the code reads t
+            if isinstance(n, ast.Name) and isinstance(n.ctx, ast.Load) and n.id in _env[-1] and not isinstance(p, ast.Name):
+                b2 = dict(b)
+                if unify(p, _env[-1][n.id], b2):
+                    b.clear()
+                    b.update(b2)
+                    return True
             return False
         for field, pv in ast.iter_fields(p):
             if field in ("ctx", "lineno", "col_offset", "end_lineno", "end_col_offset", "type_comment", "kind"):
@@ -107,11 +135,19 @@ def find(root: ast.AST, pattern: str, binds: Optional[Dict[str, object]] = None,
     pat = compile_pattern(pattern)
     out = []
     it = ast.walk(root) if nested else walk_no_nested(root)
-    for n in it:
-        if type(n) is type(pat):
-            b = dict(binds or {})
-            if unify(pat, n, b):
-                out.append((n, b))
+    pushed = False
+    if isinstance(root, (ast.FunctionDef, ast.AsyncFunctionDef)):
+        _env.append(single_defs(root))
+        pushed = True
+    try:
+        for n in it:
+            if type(n) is type(pat):
+                b = dict(binds or {})
+                if unify(pat, n, b):
+                    out.append((n, b))
+    finally:
+        if pushed:
+            _env.pop()
     out.sort(key=lambda x: (getattr(x[0], "lineno", 0), getattr(x[0], "col_offset", 0)))
     return out
 
